@@ -125,7 +125,7 @@ theorem tn_succ {k : Nat} (ihP : TPk fl mo tmpl max prog F k) (hprog : ∀ c ∈
       rw [e1, e2]
       refine ⟨hst.nextId, rfl, Nat.le_refl _, (PSpec.alts
         (m := { m with user := { m.user with nextId := m.user.nextId + 1 } })
-        (its := [(qClause g', some (.frames (SLD.bodyFrames false (g'.rename π) (d + 1 + 1))))])
+        (its := [(clauseOf (qClause g'), qClause g', some (.frames (SLD.bodyFrames false (g'.rename π) (d + 1 + 1))))])
         (g := qHead g') (R := .goal (.atom "!") d :: .goal (SLD.call1 (.atom "fail")) l :: R)
         rfl (Nat.pos_iff_ne_zero.1 hst.2.1) (qHead_shape g')
         ⟨N, σ, π, _, [], hN, hW2, .done rfl, .nil (show TailOK (some d) _ from ⟨l, R, rfl⟩), CutsOK.nil _, hq', hgD2,
